@@ -200,6 +200,20 @@ def rule_driver_faithful(ctx) -> None:
         ctx.check(ok, "C10.COMMIT", ctx.okey(f"{fn.qual}/commit-under-the-agents-context"), fn.loc(c), "the commit runs under a context cloned for the buffer's agent",
                   f"`{src(c)[:60]}` commits under `{src(a0) if a0 is not None else '?'}` - the batch context, which names no agent: apply_changes writes every agent's snapshot as state_agent.json (the "
                   "second overwrites the first) where the sequential loop writes state_<agent>.json")
+    # (a') only a turn that reached T4 is committed: a turn that yields at a scheduler boundary returns before T4 (no T4 artifact on
+    #      its context); the turn-by-turn loop applies nothing for it - no version bump, no apply.jsonl line, no snapshot
+    rc0 = ctx.func(PAR + ":_run_turn_compute")
+    marks = set()
+    for x in walk_no_defs(rc0.node):
+        if isinstance(x, ast.Dict):
+            for k, v in zip(x.keys, x.values):
+                if const_str(k) and any(const_str(y) == "_dryrun_t4" for y in ast.walk(v)):
+                    marks.add(const_str(k))
+    for n, c in applies:
+        guarded = any(p and any(f'"{m}"' in t or f"'{m}'" in t for m in marks) for t, p in cfg.facts(n))
+        ctx.check(bool(marks) and guarded, "C10.COMMIT", ctx.okey(f"{fn.qual}/commits-only-turns-that-reached-t4"), fn.loc(c), f"the commit is guarded by the buffer's {sorted(marks)} (set from the T4 artifact)",
+                  f"`{src(c)[:50]}` commits every buffer: a turn that yielded during the compute phase (scheduler budget reached after T1 / T2) left no T4 artifact and is applied all the same - one more "
+                  "version bump, an apply.jsonl line and a snapshot for an agent the turn-by-turn loop applies nothing for")
     # (b) staging loops
     stage_loops = []
     for lp in [x for x in walk_no_defs(fn.node) if isinstance(x, ast.For)]:
@@ -253,6 +267,22 @@ def rule_driver_faithful(ctx) -> None:
                           f"`{src(x)[:60]}` iterates the stage metric `{k}`, which the real T1 reports as a count: with any active graph the compute phase raises TypeError while the sequential loop "
                           "over the same turns completes")
     ctx.floor("C10.COMMIT", "stage metrics iterated by the compute phase that the real stage reports as counts", n_it, 1)
+    # (e) the turn id of the compute phase: what the caller's context says, else the fallback of the turn-by-turn loop - never a
+    #     clock reading (it goes into every log line, the staging key, the commit order and the snapshot cadence)
+    rcfg, rrd = ctx.cfg(rc), ctx.rd(rc)
+    n_tid = 0
+    for n in rcfg.nodes:
+        for c in node_calls(n):
+            if call_tail(c) != "_clone_ctx_for_agent" or len(c.args) < 3:
+                continue
+            n_tid += 1
+            sl = rrd.slice([c.args[2]], n, control=True)
+            clock = next((y for y in sl.nodes() if isinstance(y, ast.Call) and (dotted(y.func) or "").split(".")[0] in ("time", "datetime", "dt", "_time") and call_tail(y) in
+                          ("time", "time_ns", "monotonic", "perf_counter", "now", "utcnow", "today")), None)
+            ctx.check(clock is None, "C10.COMMIT", f"{rc.qual}/turn-id-is-not-a-clock-reading", rc.loc(clock) if clock is not None else rc.loc(c), "the compute phase's turn id does not come from a clock",
+                      (f"`{src(clock)[:40]}` feeds the turn id of the compute phase: a batch context without turn_id is stamped with the wall clock, per agent - log lines, staging keys, the commit order "
+                       "(_sort_turn_buffers) and the snapshot cadence then differ from the turn-by-turn loop (which uses 0) and between replays") if clock is not None else "")
+    ctx.floor("C10.COMMIT", "per-agent contexts built by the compute phase", n_tid, 1)
 
 
 def rule_batch(ctx) -> None:
@@ -273,7 +303,16 @@ def rule_batch(ctx) -> None:
         p = cfg.path([n], lambda x: x in heads or x is cfg.exit, avoid=lambda x: x in upd, edge_ok=no_exc, include_start=False)
         ctx.check(bool(upd) and p is None, "C10.BATCH", f"{fn.qual}/used-updated", fn.loc(c), "each pick is followed by used.update(its graph set)", "a picked agent's graphs are not added to the used set",
                   ctx.path_witness(fn, p))
+        # an agent overlaps itself: disjointness of the graph sets does not say so for an agent with the EMPTY set (it declares no
+        # graphs), which would be picked once per task and have both tasks computed on one snapshot.  The pick is made only where
+        # the agent is known not to be picked yet (`a not in picked` / after `if a in picked: continue`), or picks go into a set.
         gs = c.args[0] if c.args else None
+        a_txt = src(gs) if gs is not None else ""
+        once = any(((not p) and any(t.replace(" ", "") == f"{a_txt}in{r}" for r in _ret)) or (p and any(t.replace(" ", "") == f"{a_txt}notin{r}" for r in _ret)) for t, p in facts) \
+            or any((p and t.replace(" ", "").startswith(f"{a_txt}notin")) or ((not p) and t.replace(" ", "").startswith(f"{a_txt}in") and not t.replace(" ", "").startswith(f"{a_txt}in(")) for t, p in facts)
+        ctx.check(once, "C10.BATCH", f"{fn.qual}/an-agent-is-picked-once", fn.loc(c), "an agent is picked only where it is not picked yet",
+                  f"`{src(c)}` can pick an agent that is in the batch already: disjointness of the graph sets does not exclude it when its own set is empty (an agent that declares no graphs) - both of its "
+                  "tasks are then computed on the same pre-batch snapshot and the second does not see the first")
         lim = any((not p) and any(t.replace(" ", "").startswith(f"len({r})>=") for r in _ret) for t, p in facts)
         ctx.check(lim, "C10.BATCH", f"{fn.qual}/limit-tested-first", fn.loc(c), "the worker limit is tested before each pick", "the worker limit does not bound the batch")
     drv = ctx.func(BATCH)
@@ -602,6 +641,92 @@ def rule_retry_admitted(ctx) -> None:
                   "and the RuntimeError leaves the batch driver - the outcome depends on the staging limit")
 
 
+def _ctx_attr_flow(ctx, entries, depth: int = 3):
+    """(reads, writes): attribute names read from / written to the object that enters at the (function, parameter) pairs,
+    followed into program callees that are handed the same object"""
+    reads, writes = {}, {}
+    seen = set()
+    work = [(f, p, 0) for f, p in entries]
+    while work:
+        fn, pn, d = work.pop()
+        if (fn.qual, pn) in seen:
+            continue
+        seen.add((fn.qual, pn))
+        for x in walk_no_defs(fn.node):
+            if isinstance(x, ast.Attribute) and isinstance(x.value, ast.Name) and x.value.id == pn:
+                (reads if isinstance(x.ctx, ast.Load) else writes).setdefault(x.attr, (fn, x))
+            elif isinstance(x, ast.Call) and dotted(x.func) in ("getattr", "hasattr") and len(x.args) >= 2 and isinstance(x.args[0], ast.Name) and x.args[0].id == pn and const_str(x.args[1]):
+                reads.setdefault(const_str(x.args[1]), (fn, x))
+            elif isinstance(x, ast.Call) and dotted(x.func) == "setattr" and len(x.args) >= 2 and isinstance(x.args[0], ast.Name) and x.args[0].id == pn:
+                names = [const_str(x.args[1])] if const_str(x.args[1]) else []
+                if not names and isinstance(x.args[1], ast.Name):
+                    # setattr(ctx, _name, ...) inside `for _name in ("a", "b")`
+                    for y in walk_no_defs(fn.node):
+                        if isinstance(y, ast.For) and isinstance(y.target, ast.Name) and y.target.id == x.args[1].id and isinstance(y.iter, (ast.Tuple, ast.List)):
+                            names = [const_str(e) for e in y.iter.elts if const_str(e)]
+                for nm in names:
+                    writes.setdefault(nm, (fn, x))
+            if isinstance(x, ast.Call) and d < depth:
+                r = ctx.prog.callee(fn, x)
+                if r is None and isinstance(x.func, ast.Call) and x.func.args and isinstance(x.func.args[-1], ast.Name):
+                    r = ctx.prog.resolve_dotted(fn.module, x.func.args[-1].id, fn)
+                if not r or r[0] != "func" or not ctx.prog.has_func(r[1]):
+                    continue
+                cal = ctx.prog.func(r[1])
+                ps = [p_ for p_ in cal.params if p_ not in ("self", "cls")]
+                for i, a in enumerate(x.args):
+                    if isinstance(a, ast.Name) and a.id == pn and i < len(ps):
+                        work.append((cal, ps[i], d + 1))
+                for kw in x.keywords:
+                    if isinstance(kw.value, ast.Name) and kw.value.id == pn and kw.arg in ps:
+                        work.append((cal, kw.arg, d + 1))
+    return reads, writes
+
+
+def rule_clone_carries_inputs(ctx) -> None:
+    """"the same per-agent results ... the same log lines": the compute phase runs run_turn under a context the driver builds per
+    agent.  Everything run_turn (and what it hands its context to) READS from the context and does not itself put there is an
+    input of the turn: the injected T2 encoder, trace / pick reasons, the scheduler-log wiring, adapters, style.  A clone that
+    carries a fixed short list drops the rest - the parallel run retrieves with another encoder and writes other scheduler
+    lines than the same turns run one after another with the caller's context."""
+    rt = ctx.func(RUN_TURN)
+    cparam = [p for p in rt.params if p not in ("self",)][0]
+    reads, writes = _ctx_attr_flow(ctx, [(rt, cparam)], depth=3)
+    cl = ctx.func(PAR + ":_clone_ctx_for_agent")
+    src_p = cl.params[0]
+    # what the clone carries
+    explicit = {const_str(t.slice) for x in walk_no_defs(cl.node) if isinstance(x, ast.Assign) for t in x.targets if isinstance(t, ast.Subscript) and const_str(t.slice)}
+    listed = set()
+    for x in walk_no_defs(cl.node):
+        if isinstance(x, ast.For) and isinstance(x.iter, (ast.Tuple, ast.List)) and all(const_str(e) for e in x.iter.elts):
+            if any(isinstance(y, ast.Call) and dotted(y.func) in ("getattr", "hasattr") and y.args and isinstance(y.args[0], ast.Name) and y.args[0].id == src_p for st in x.body for y in ast.walk(st)):
+                listed |= {const_str(e) for e in x.iter.elts}
+    everything = any(isinstance(x, ast.Call) and dotted(x.func) == "vars" and x.args and isinstance(x.args[0], ast.Name) and x.args[0].id == src_p for x in walk_no_defs(cl.node)) or \
+        any(isinstance(x, ast.Attribute) and x.attr == "__dict__" and isinstance(x.value, ast.Name) and x.value.id == src_p for x in walk_no_defs(cl.node))
+    skip_prefix, skip_names = set(), set()
+    if everything:
+        for x in walk_no_defs(cl.node):
+            if isinstance(x, ast.If) and any(isinstance(y, ast.Continue) for y in x.body):
+                for y in ast.walk(x.test):
+                    if isinstance(y, ast.Call) and call_tail(y) == "startswith" and y.args:
+                        skip_prefix |= {const_str(e) for e in (y.args[0].elts if isinstance(y.args[0], ast.Tuple) else [y.args[0]]) if const_str(e)}
+                    if isinstance(y, ast.Compare) and isinstance(y.ops[0], ast.In) and isinstance(y.comparators[0], (ast.Tuple, ast.List, ast.Set)):
+                        skip_names |= {const_str(e) for e in y.comparators[0].elts if const_str(e)}
+    inputs = sorted(a for a in reads if a not in writes and not a.startswith("__") and a not in ("get",))
+    ctx.floor("C10.COMMIT", "context attributes run_turn reads as inputs", len(inputs), 10)
+    missing = []
+    for a in inputs:
+        if a in explicit or a in listed:
+            continue
+        if everything and not (a in skip_names or any(a.startswith(p) for p in skip_prefix)):
+            continue
+        missing.append(a)
+    w = reads[missing[0]] if missing else None
+    ctx.check(not missing, "C10.COMMIT", f"{cl.qual}/clone-carries-every-input-of-the-turn", cl.loc(), f"the per-agent context carries all {len(inputs)} attributes run_turn reads as inputs",
+              (f"the per-agent context does not carry {missing}: e.g. `{missing[0]}` is read at {w[0].loc(w[1])} - a batch whose context injects it (the T2 encoder `enc`, `pick_reason`, the "
+               "scheduler-log wiring, `trace_reason`, adapters) computes with the defaults instead, so per-agent results and log lines differ from the same turns run one after another") if missing else "")
+
+
 def rule_readers_accept_the_view(ctx) -> None:
     """"the same per-agent results": the compute phase runs the real run_turn on readonly_snapshot(state), which hands out the
     state's containers as frozen VIEWS - mappings that are not dicts, sequences that are not lists, without mutators.  Stage
@@ -677,6 +802,7 @@ def rule_readers_accept_the_view(ctx) -> None:
 
 
 def run(ctx) -> None:
+    rule_clone_carries_inputs(ctx)
     rule_readers_accept_the_view(ctx)
     rule_retry_admitted(ctx)
     rule_capture_snapshot(ctx)
